@@ -1,5 +1,47 @@
+//! vh-crash — process-level crash / overflow / hang monitor (property C12).
+//!
+//!   vh-crash C12 <quick|thorough> [--replay <path>]   parent = monitor
+//!   vh-crash __child <batchfile> <start> <stack>      hidden: runs inputs, reports BEGIN/END lines
+//!   vh-crash __probe [construct ...]                  hidden: smallest overflowing depth per construct and stack size
+//!   vh-crash __parse <construct> <depth> <stack>      hidden: parse_query alone on a nesting construct (attribution)
+//!   vh-crash __sdl                                    hidden: print the target schema
+
+mod child;
+mod exec;
+mod generate;
+mod input;
+mod parent;
+mod schema;
+mod sha256;
+
 fn main() {
-    let id = std::env::args().nth(1).unwrap_or_default();
-    println!("INCONCLUSIVE property={id} reason=vh-crash has no check for this property yet");
-    std::process::exit(2);
+    let args: Vec<String> = std::env::args().collect();
+    let id = args.get(1).cloned().unwrap_or_default();
+    match id.as_str() {
+        "C12" => parent::main(),
+        "__child" => child::main(&args[2..]),
+        "__probe" => parent::probe(&args[2..]),
+        "__sdl" => println!("{}", schema::plain().sdl()),
+        "__parse" => {
+            // hidden: parse_query only (no validation / execution) of a nesting construct, for attribution
+            let c = args[2].clone();
+            let d: usize = args[3].parse().unwrap();
+            let stack: usize = args[4].parse().unwrap();
+            let h = std::thread::Builder::new()
+                .stack_size(stack)
+                .spawn(move || {
+                    let text = generate::Gen::nest_text(&c, d);
+                    match async_graphql_parser::parse_query(&text) {
+                        Ok(_) => println!("parse_query ok"),
+                        Err(e) => println!("parse_query error: {}", vh_core::run::truncate(&e.to_string(), 100)),
+                    }
+                })
+                .unwrap();
+            h.join().unwrap();
+        }
+        _ => {
+            println!("INCONCLUSIVE property={id} reason=vh-crash has no check for this property");
+            std::process::exit(2);
+        }
+    }
 }
